@@ -858,3 +858,6 @@ func (g *Graph) concreteResultTypes(call *ssa.Call, idx, depth int) ([]types.Typ
 	}
 	return out, true
 }
+
+// ConcreteTypesOf exposes the dynamic-type resolution used for field-sensitive dispatch.
+func (g *Graph) ConcreteTypesOf(v ssa.Value) ([]types.Type, bool) { return g.concreteTypesOf(v, 0) }
